@@ -89,6 +89,7 @@ func runRetry(op string) (out string) {
 	var down []int
 	var script []string
 	zhost := -1
+	yhost := -1 // every connection of this host is lost and replaced before the request
 	for _, t := range strings.Fields(op) {
 		k, v := t[:1], t[2:]
 		switch k {
@@ -111,6 +112,8 @@ func runRetry(op string) (out string) {
 			script = append(script, v)
 		case "Z":
 			zhost, _ = strconv.Atoi(v)
+		case "Y":
+			yhost, _ = strconv.Atoi(v)
 		}
 	}
 	eopts := e2e.Options{Hosts: hosts, NumConns: conns, IdempotentGraph: kind == "gi"}
@@ -122,6 +125,9 @@ func runRetry(op string) (out string) {
 	}
 	if zhost >= 0 {
 		eopts.ReconnectBase, eopts.ReconnectMax = 30*time.Second, 30*time.Second
+	}
+	if yhost >= 0 {
+		eopts.ReconnectBase, eopts.ReconnectMax = 5*time.Millisecond, 10*time.Millisecond
 	}
 	env, err := e2e.Start(eopts)
 	if err != nil {
@@ -285,6 +291,10 @@ func runRetry(op string) (out string) {
 		prepare(stmtNonIdem)
 		nprep = 2
 		msg = &message.Batch{Type: primitive.BatchTypeLogged, Consistency: primitive.ConsistencyLevelQuorum, Children: []*message.BatchChild{{Id: pid(stmtIdem)}, {Id: pid(stmtNonIdem)}}}
+	case "br": // the non-idempotent child comes first, an idempotent one last
+		prepare(stmtNonIdem)
+		nprep = 1
+		msg = &message.Batch{Type: primitive.BatchTypeLogged, Consistency: primitive.ConsistencyLevelQuorum, Children: []*message.BatchChild{{Id: pid(stmtNonIdem)}, {Query: stmtIdem}}}
 	case "bu":
 		msg = &message.Batch{Type: primitive.BatchTypeLogged, Consistency: primitive.ConsistencyLevelQuorum, Children: []*message.BatchChild{{Query: stmtIdem}, {Id: pid("never prepared")}}}
 	case "gs": // a graph request whose text starts like a SELECT (graph requests are not idempotent unless configured so)
@@ -313,6 +323,22 @@ func runRetry(op string) (out string) {
 	}
 	if len(down) > 0 {
 		time.Sleep(30 * time.Millisecond) // let the pool slots observe the closed connections
+	}
+	if yhost >= 0 && yhost < len(ips) {
+		env.Cluster.Node(ips[yhost]).DropConns(func(c interface{ Registered() bool }) bool { return !c.Registered() })
+		for i := 0; i < 400; i++ { // until the pool has its connections back
+			n := 0
+			for _, c := range env.Cluster.Node(ips[yhost]).Conns() {
+				if !c.Registered() {
+					n++
+				}
+			}
+			if n >= conns {
+				break
+			}
+			time.Sleep(5 * time.Millisecond)
+		}
+		time.Sleep(30 * time.Millisecond)
 	}
 	if zhost >= 0 && zhost < len(ips) {
 		// the first connection of that host's pool is lost (its slot waits for the reconnect delay); the others stay
@@ -369,7 +395,7 @@ func runRetry(op string) (out string) {
 
 var retryOutcomes = []string{"ok", "ok", "rt:2:2:0", "rt:1:2:0", "rt:2:2:1", "rt:3:2:0", "wt:BATCH_LOG", "wt:SIMPLE", "wt:BATCH", "wt:CAS", "wt:COUNTER", "wt:UNLOGGED_BATCH",
 	"un", "un", "bs", "bs", "se", "ov", "tr", "rf", "wf", "inv", "syn", "unauth", "cfg", "ae", "ff", "drop", "drop", "drop", "ue", "pe"}
-var retryKinds = []string{"qi", "qn", "qu", "qs", "qc", "ei", "en", "eu", "bi", "bn", "bp", "bq", "bu", "gi", "gn", "gs", "ge"}
+var retryKinds = []string{"qi", "qn", "qu", "qs", "qc", "ei", "en", "eu", "bi", "bn", "bp", "bq", "bu", "br", "gi", "gn", "gs", "ge"}
 
 func genRetry(e *emitter, r *rng.R, n int, tier string) {
 	corpus := []string{
@@ -386,6 +412,8 @@ func genRetry(e *emitter, r *rng.R, n int, tier string) {
 		"H:3 C:1 W:0 K:gn D:- X:se",
 		"H:3 C:1 W:0 K:gi D:- X:se X:ok",
 		"H:3 C:1 W:0 K:gs D:- X:se X:ok",
+		"H:3 C:1 W:1 K:br D:- X:wt:BATCH_LOG X:ok",
+		"H:3 C:1 W:1 K:br D:- X:se X:ok",
 		"H:3 C:1 W:0 K:ge D:- X:ov X:ok",
 		"H:3 C:1 W:0 K:qi D:- X:ov+w X:se+t X:ok",
 		"H:3 C:1 W:0 K:qi D:- X:un+p X:ok",
@@ -394,6 +422,9 @@ func genRetry(e *emitter, r *rng.R, n int, tier string) {
 		"H:3 C:2 W:0 K:qi D:- Z:0 X:ok",
 		"H:2 C:2 W:1 K:qi D:- Z:1 X:se X:ok",
 		"H:1 C:2 W:0 K:qn D:- Z:0 X:ok",
+		"H:2 C:1 W:0 K:qi D:- Y:0 X:idle X:ok",
+		"H:3 C:2 W:1 K:qi D:- Y:1 X:idle X:ok",
+		"H:2 C:1 W:0 K:qn D:- Y:0 X:ok",
 	}
 	ops := append([]string{}, corpus...)
 	defer func() { e.emitAll(ops, 12) }()
@@ -430,7 +461,9 @@ func genRetry(e *emitter, r *rng.R, n int, tier string) {
 			}
 			parts = append(parts, "X:"+o)
 		}
-		if c == 2 && rr.Chance(1, 5) {
+		if rr.Chance(1, 12) {
+			parts = append(parts[:5], append([]string{fmt.Sprintf("Y:%d", rr.Intn(h))}, parts[5:]...)...)
+		} else if c == 2 && rr.Chance(1, 5) {
 			parts = append(parts[:5], append([]string{fmt.Sprintf("Z:%d", rr.Intn(h))}, parts[5:]...)...)
 		}
 		ops = append(ops, strings.Join(parts, " "))
